@@ -448,6 +448,12 @@ def proof_status(ch, modname, build):
         pa, out = print_assumptions(modname, thms)
         if pa is None:
             proof["failed"] = thms; proof["log"] = out
+            if build.get("make_rc"):
+                # a file this one depends on did not compile (its own .vo is then stale): name the file and the error
+                ml = build.get("make_log", "")
+                errs = re.findall(r'(File "[^"]+", line \d+[^\n]*\n(?:[^\n]*\n){0,12}?[^\n]*Error[^\n]*(?:\n[^\n]+){0,6})', ml)
+                proof["log"] = "a dependency of props/%s.v no longer compiles:\n%s\n--- Print Assumptions said: %s" % (
+                    modname, "\n".join(errs)[:4000] or ml[-3000:], out[-600:])
         else:
             proof["discharged"] = len(thms)
             proof["axioms"] = pa["axioms"]
